@@ -11,6 +11,10 @@ import socket
 GUID = b"258EAFA5-E914-47DA-95CA-C5AB0DC85B11"
 
 
+class SpinDetected(BaseException):
+    """the library keeps polling a transport that is at end of stream: it spins without consuming input"""
+
+
 class Sock:
     def __init__(self, events=(), accept=None, timeout=1):
         self.inbox = [tuple(e) for e in events]
@@ -29,6 +33,9 @@ class Sock:
         if not self.inbox:
             if self.silence_after:
                 raise socket.timeout("timed out")
+            self.eof_reads = getattr(self, "eof_reads", 0) + 1
+            if self.eof_reads > 200:
+                raise SpinDetected(f"{self.eof_reads} reads at end of stream")
             return b""
         ev = self.inbox[0]
         if ev[0] == "D":
